@@ -257,3 +257,23 @@ theorem sendAllLoop_kind (B : Nat) (snapOf : Nat → List (Option Bool)) (ds : L
             · exact ih hrec x hx
 
 end PSO.NodeSend
+
+namespace PSO.NodeSend
+
+/-- for a message that carries `prevLogIdx` the full handler `appendMsgEnv` is `appendEntriesEnv` (state, extra
+fields, outputs); the fourth component only adds the side observations -/
+theorem appendMsgEnv_regular (cfg : Conf) (x : Extra) (s : Node) (src term lc : Nat) (m : AppendMsg) :
+    ((appendMsgEnv cfg x s src term lc (.regular m)).1, (appendMsgEnv cfg x s src term lc (.regular m)).2.1,
+      (appendMsgEnv cfg x s src term lc (.regular m)).2.2.1) = appendEntriesEnv cfg x s src term lc m := by
+  unfold appendMsgEnv
+  by_cases h : term < s.term
+  · simp [h, appendEntriesEnv]
+  · simp only [h, if_false]
+
+/-- a stale message (`term < currentTerm`) is ignored entirely: no state change, no reply, nothing stored -/
+theorem appendMsgEnv_stale (cfg : Conf) (x : Extra) (s : Node) (src term lc : Nat) (k : EnvMsg) (h : term < s.term) :
+    appendMsgEnv cfg x s src term lc k = (x, s, .ok [], {}) := by
+  unfold appendMsgEnv
+  simp [h]
+
+end PSO.NodeSend
